@@ -418,6 +418,18 @@ fn gen_family(rng: &mut Rng, c: &mut Case, fam: &str, be: bool) {
                     secs.insert("sup_debug_str".into(), s2);
                 }
             }
+            // size knob: DIE nesting depth (stack use proportional to depth becomes visible)
+            if rng.chance(1, 150) {
+                let depth = 1usize << if rng.chance(1, 6) { rng.range(13, 15) } else { rng.range(6, 12) };
+                let depth = depth + rng.usize(depth);
+                let (ab, info) = asm::deep_chain(rng, be, asz, depth);
+                secs.insert("debug_abbrev".into(), ab);
+                secs.insert("debug_info".into(), info);
+                secs.insert("debug_types".into(), Vec::new());
+                // the caller is a default std::thread: 2 MiB of stack
+                c.set("stack_kib", 2048);
+                note.push_str("+deepchain");
+            }
             // corruption: mostly the DIE stream / abbreviations
             let target = *rng.pick(&["debug_info", "debug_info", "debug_info", "debug_abbrev", "debug_abbrev", "debug_str", "debug_line", "debug_ranges", "debug_loc", "debug_rnglists", "debug_loclists", "debug_str_offsets", "debug_addr"]);
             if let Some(v) = secs.get_mut(target) {
